@@ -108,7 +108,14 @@ func formatArrayTypeName(v string) string {
 
 //ExtractValue info
 func ExtractValue(v reflect.Value, extractor ValueExtractor) {
-	v = RawValue(v)
+	// a nil pointer still tells the type it points to: describe it through a fresh zero value,
+	// as is done for the element type of an empty slice or map
+	for v.Kind() == reflect.Ptr {
+		if v.IsNil() {
+			v = reflect.New(v.Type().Elem())
+		}
+		v = v.Elem()
+	}
 
 	if !extractor(v) {
 		return
